@@ -2,15 +2,16 @@ SPECIFICATION Spec
 CONSTANTS
   Isas = {"x64"}
   MaxBlocks = 3
-  Templates = {"o23", "jmp", "ret", "call"}
+  Templates = {"o23", "jmp", "ret"}
   Layouts = {"one", "split1", "split2", "tail", "head"}
   FnTables = {"present"}
-  Names = {"fa", "fab", "xfa", "main"}
+  Names = {"fa", "xfa", "main"}
   BothOrders = FALSE
   EntModes = {"first", "all"}
   EpChoices = {0, 1, 2}
   CfgModes = {"full"}
-  TgtChoices = {0, 1, 3}
+  AddrModes = {TRUE}
+  TgtChoices = {0, 3}
   ScopeKinds = {"allfuncs", "allblocks"}
   Positions = {"ENTRY", "EXIT"}
   FPositions = {"ENTRY", "EXIT"}
